@@ -19,11 +19,11 @@ import (
 type c19Case struct {
 	Mode     string `json:"mode"` // unary | exchange | producer | ext_unary | ext_producer
 	Cap      int64  `json:"cap"`
-	Size     int    `json:"size,omitempty"`  // unary result bytes / exchange pad
-	Pads     []int  `json:"pads,omitempty"`  // producer: per-batch padding
-	Rows     []int  `json:"rows,omitempty"`  // producer: per-batch rows
-	Limit    int    `json:"limit"`           // producer batch limit (0 = none)
-	Compress bool   `json:"compress"`        // client asks for zstd
+	Size     int    `json:"size,omitempty"` // unary result bytes / exchange pad
+	Pads     []int  `json:"pads,omitempty"` // producer: per-batch padding
+	Rows     []int  `json:"rows,omitempty"` // producer: per-batch rows
+	Limit    int    `json:"limit"`          // producer batch limit (0 = none)
+	Compress bool   `json:"compress"`       // client asks for zstd
 	Thresh   int64  `json:"threshold,omitempty"`
 }
 
